@@ -72,6 +72,11 @@ deriving DecidableEq, Repr
 def active (m : State) (r : Nat) : Bool :=
   (m.run r).pc != .notStarted && (m.run r).pc != .returned
 
+/-- The run machine as an owned run `r` of Start call `s` finds it when it
+    begins: the run gets Start's context, cancelled from the outset if that is. -/
+def startCtx (se : SEnv) (st : SState) (s r : Nat) : State :=
+  if st.sdead s then (step se.env st.m (.cancel r)).1 else st.m
+
 def sstep (se : SEnv) (st : SState) : SEv → SState × SOut
   | .sbegin s =>
     match st.start s with
@@ -98,9 +103,7 @@ def sstep (se : SEnv) (st : SState) : SEv → SState × SOut
     | some s =>
       match st.start s with
       | .inRun k none =>
-        -- the run gets Start's context: cancelled from the outset if that is
-        let m0 := if st.sdead s then (step se.env st.m (.cancel r)).1 else st.m
-        let x := step se.env m0 (.begin r)
+        let x := step se.env (startCtx se st s r) (.begin r)
         if x.2 = .bad then (st, .bad)
         else ({ st with m := x.1 }.setStart s (.inRun k (some r)), .inner x.2)
       | _ => (st, .bad)
